@@ -94,7 +94,10 @@ pub fn emit(e: &mut Emitter, seed: u64, thorough: bool) {
             let native = verdict(data_for_native, p);
             let outer_v = outer_verdict(&outer, p, &data_for_native.verifier_only);
             if coarse(&native) != coarse(&outer_v) {
-                if what.starts_with("surgery") && native == "REJECT:shape" && outer_v == "ACCEPT" {
+                // a SURPLUS final-polynomial coefficient is not part of the known finding: `set_fri_proof_target`
+                // refuses a final polynomial longer than its targets, so the circuit verdict there is REJECT
+                let surplus_final = what.starts_with("surgery1") && what.ends_with("final_poly.coeffs");
+                if what.starts_with("surgery") && native == "REJECT:shape" && outer_v == "ACCEPT" && !surplus_final {
                     // the assignment routines zip over the targets: surplus elements are dropped, a short
                     // final polynomial is zero-padded (same routines as F-C11-1)
                     e.oracle_failures.push(format!("F-C06-1 (mis-shaped inner proof assigned by dropping or padding elements): in-circuit verifier says ACCEPT, native verifier says REJECT:shape: {what}"));
@@ -144,6 +147,13 @@ pub fn emit(e: &mut Emitter, seed: u64, thorough: bool) {
                     judge(e, &format!("surgery{surgery}: {cls}"), &p2, &inner);
                 }
             }
+        }
+        // a surplus final-polynomial coefficient, for every inner proof (the assignment refuses it)
+        {
+            let mut p2 = proof.clone();
+            let l = *p2.proof.opening_proof.final_poly.coeffs.last().unwrap();
+            p2.proof.opening_proof.final_poly.coeffs.push(l);
+            judge(e, "surgery1: proof.opening_proof.final_poly.coeffs", &p2, &inner);
         }
         // wrong number of public inputs (surplus / missing), proof itself untouched
         let mut p2 = proof.clone();
